@@ -151,9 +151,7 @@ MUTANTS = [
     {'name': 'X2 emit_return forgets JumpFinally', 'prop': 'C08', 'expect': 'X2 / emit_return',
      'edits': [(COMP, '''            self.emit_byte(OpCode::Nil as u8);
         }
-        if self.compiler().in_try_block {
-            self.emit_byte(OpCode::JumpFinally as u8);
-        }
+        self.emit_jumps_to_finally();
         self.emit_byte(OpCode::Return as u8);''', '''            self.emit_byte(OpCode::Nil as u8);
         }
         self.emit_byte(OpCode::Return as u8);''')]},
@@ -498,6 +496,13 @@ fn string_from_utf8''')]},
     {'name': 'L4 a native error path records a throw site', 'prop': 'C17', 'expect': 'L4 / error_ip is given an address only by',
      'edits': [(VM, "    fn call_impl(&mut self) -> Result<(), Error> {\n        let arg_count = self.read_byte() as usize;",
                 "    fn call_impl(&mut self) -> Result<(), Error> {\n        self.active_fiber_mut().error_ip = Some(self.ip);\n        let arg_count = self.read_byte() as usize;")]},
+    # ---- rules see through newly extracted private helpers (facts.inline_new_helpers) -----------------
+    {'name': 'X9 the tail of return_impl moved into a new private helper that forgets load_frame', 'prop': 'C08', 'expect': 'X9 / yarel::vm::Vm::return_impl / frames.pop',
+     'edits': [(VM, "        self.load_frame();\n        self.active_fiber_mut().stack.truncate(prev_stack_size);\n        self.push(result);\n        Ok(None)\n    }\n",
+                "        self.resume_caller(prev_stack_size, result);\n        Ok(None)\n    }\n\n    fn resume_caller(&mut self, prev_stack_size: usize, result: Value) {\n        self.active_fiber_mut().stack.truncate(prev_stack_size);\n        self.push(result);\n    }\n")]},
+    {'name': 'S6 close_upvalues_for_frame dropped while extracting a helper from return_impl', 'prop': 'C06', 'expect': 'S6 / yarel::vm::Vm::return_impl / frames.pop',
+     'edits': [(VM, "        let result = self.pop();\n        self.active_fiber_mut().close_upvalues_for_frame();\n", "        let result = self.take_result();\n"),
+               (VM, "    fn declare_class_impl(&mut self) {", "    fn take_result(&mut self) -> Value {\n        self.pop()\n    }\n\n    fn declare_class_impl(&mut self) {")]},
     # ---- round-3 rules ------------------------------------------------------------------------------
     {'name': 'U6 whole-range slice hands back the receiver', 'prop': 'C13', 'expect': 'U6 / slice_get_item / ObjRange index',
      'edits': [(VM, "                let (begin, end) = r.make_bounded_range(elems_len, kind)?;\n                Ok(IndexResult::Slice(Vec::from(&elements[begin..end])))",
@@ -523,13 +528,13 @@ fn string_from_utf8''')]},
      'edits': [(COMP, "        for _ in 0..self.compiler().try_depth {\n            self.emit_byte(OpCode::JumpFinally as u8);\n        }", "        if self.compiler().try_depth > 0 {\n            self.emit_byte(OpCode::JumpFinally as u8);\n        }")]},
     # ---- round-2 rules ------------------------------------------------------------------------------
     {'name': 'X8 in_try_block restored only after the catch block', 'prop': 'C08', 'expect': 'X8 / exactly the try body',
-     'edits': [(COMP, "        self.end_scope();\n        self.compiler_mut().in_try_block = prev_in_try_block;\n\n        self.emit_byte(OpCode::PopExcHandler as u8);",
+     'edits': [(COMP, "        self.end_scope();\n        self.compiler_mut().try_depth = prev_try_depth;\n\n        self.emit_byte(OpCode::PopExcHandler as u8);",
                 "        self.end_scope();\n\n        self.emit_byte(OpCode::PopExcHandler as u8);"),
                (COMP, "        self.patch_jump(catch_jump_pos);\n\n        self.patch_offset_at(handler_catch_arg_pos + 2, catch_start_pos);",
-                "        self.compiler_mut().in_try_block = prev_in_try_block;\n        self.patch_jump(catch_jump_pos);\n\n        self.patch_offset_at(handler_catch_arg_pos + 2, catch_start_pos);")]},
-    {'name': 'X8 (via C04) flag never restored', 'prop': 'C04', 'expect': 'X8 / try_statement writes the flag twice',
-     'edits': [(COMP, "        self.end_scope();\n        self.compiler_mut().in_try_block = prev_in_try_block;\n\n        self.emit_byte(OpCode::PopExcHandler as u8);",
-                "        self.end_scope();\n        let _ = prev_in_try_block;\n\n        self.emit_byte(OpCode::PopExcHandler as u8);")]},
+                "        self.compiler_mut().try_depth = prev_try_depth;\n        self.patch_jump(catch_jump_pos);\n\n        self.patch_offset_at(handler_catch_arg_pos + 2, catch_start_pos);")]},
+    {'name': 'X8 (via C04) flag never restored', 'prop': 'C04', 'expect': 'X8 / try_statement writes Compiler.try_depth twice',
+     'edits': [(COMP, "        self.end_scope();\n        self.compiler_mut().try_depth = prev_try_depth;\n\n        self.emit_byte(OpCode::PopExcHandler as u8);",
+                "        self.end_scope();\n        let _ = prev_try_depth;\n\n        self.emit_byte(OpCode::PopExcHandler as u8);")]},
     {'name': 'X9 unwind_stack refreshes chunk and ip by hand, not the module', 'prop': 'C08', 'expect': 'X9 / yarel::vm::Vm::unwind_stack / frames.truncate',
      'edits': [(VM, "        self.active_fiber_mut().current_frame_mut().unwrap().ip = handler.catch_ip;\n        self.load_frame();",
                 "        self.active_fiber_mut().current_frame_mut().unwrap().ip = handler.catch_ip;\n        self.ip = handler.catch_ip;")]},
@@ -564,6 +569,12 @@ fn string_from_utf8''')]},
 ]
 
 BENIGN = [
+    {'name': 'tail of return_impl moved verbatim into a new private helper', 'prop': 'C08',
+     'edits': [(VM, "        self.load_frame();\n        self.active_fiber_mut().stack.truncate(prev_stack_size);\n        self.push(result);\n        Ok(None)\n    }\n",
+                "        self.resume_caller(prev_stack_size, result);\n        Ok(None)\n    }\n\n    fn resume_caller(&mut self, prev_stack_size: usize, result: Value) {\n        self.load_frame();\n        self.active_fiber_mut().stack.truncate(prev_stack_size);\n        self.push(result);\n    }\n")]},
+    {'name': 'same helper extraction seen by C06 (S1/S5/S6)', 'prop': 'C06',
+     'edits': [(VM, "        self.load_frame();\n        self.active_fiber_mut().stack.truncate(prev_stack_size);\n        self.push(result);\n        Ok(None)\n    }\n",
+                "        self.resume_caller(prev_stack_size, result);\n        Ok(None)\n    }\n\n    fn resume_caller(&mut self, prev_stack_size: usize, result: Value) {\n        self.load_frame();\n        self.active_fiber_mut().stack.truncate(prev_stack_size);\n        self.push(result);\n    }\n")]},
     {'name': 'integrality decided with floor()', 'prop': 'C13',
      'edits': [(UTILS, "n.trunc() != n", "n.floor() != n")]},
     {'name': 'to_num maps the parse error with map_err', 'prop': 'C19',
@@ -575,8 +586,8 @@ BENIGN = [
      'edits': [(OBJ, "        let ret = borrowed_vec.elements[self.current];\n        self.current += 1;\n        Some(ret)",
                 "        let i = self.current;\n        self.current = i + 1;\n        Some(borrowed_vec.elements[i])")]},
     {'name': 'in_try_block restored after PopExcHandler is emitted (still before the catch block)', 'prop': 'C08',
-     'edits': [(COMP, "        self.end_scope();\n        self.compiler_mut().in_try_block = prev_in_try_block;\n\n        self.emit_byte(OpCode::PopExcHandler as u8);",
-                "        self.end_scope();\n\n        self.emit_byte(OpCode::PopExcHandler as u8);\n        self.compiler_mut().in_try_block = prev_in_try_block;")]},
+     'edits': [(COMP, "        self.end_scope();\n        self.compiler_mut().try_depth = prev_try_depth;\n\n        self.emit_byte(OpCode::PopExcHandler as u8);",
+                "        self.end_scope();\n\n        self.emit_byte(OpCode::PopExcHandler as u8);\n        self.compiler_mut().try_depth = prev_try_depth;")]},
     {'name': 'line table widened to u32', 'prop': 'C17',
      'edits': [(CHUNK, "    pub lines: Vec<i32>,", "    pub lines: Vec<u32>,"), (CHUNK, "pub fn write(&mut self, byte: u8, line: i32)", "pub fn write(&mut self, byte: u8, line: u32)"),
                (COMP, "        let line = self.previous.line as i32;", "        let line = self.previous.line as u32;"),
